@@ -46,7 +46,7 @@ PROBES = [
     "fits_budget_exactly", "mixed_fresh_and_used_labels", "nodes_called_with_same_list_object",
     "layers_ge_4", "all_labels_at_one_position", "list_edited_in_place_and_handed_over_again",
     "subset_of_used_labels", "clones_of_laid_out_labels", "readonly_inspection",
-    "standalone_distributor_reused", "labels_remeasured_between_computes",
+    "standalone_distributor_reused", "labels_remeasured_between_computes", "option_written_directly",
 ]
 
 RULE = {
@@ -284,6 +284,13 @@ def gen_plan(rng, tier):
             rng.shuffle(keys)
             delta = {k: full[k] for k in keys[: rng.randrange(1, 3)]} if keys else {"density": 0.6}
             cr = rng.random()
+            if cr < 0.06:
+                # written straight into the public options dict (no set_options call);
+                # only a key that needs no derived value
+                v = rng.choice([0, 2, 5, 9])
+                eng_opts[e] = dict(eng_opts[e], lineSpacing=v)
+                ops.append(["write_option", e, "lineSpacing", v])
+                continue
             if cr < 0.08:
                 delta = {}                                   # set_options({})
             elif cr < 0.16:
@@ -366,6 +373,8 @@ def valid(plan):
             continue
         if op[0] == "new_engine":
             eng[op[1]] = dict(FORCE_DEFAULTS, **op[2])
+        elif op[0] == "write_option" and op[1] in eng:
+            eng[op[1]][op[2]] = op[3]
         elif op[0] == "config" and op[1] in eng:
             eng[op[1]].update(op[2])
         else:
@@ -696,6 +705,16 @@ def _run(plan):
                 eng["opts"].update(op[2])
                 eng["reconfigured"] = True
                 eng["clean"] = None  # an engine may legitimately drop its report on re-configuration
+        elif kind == "write_option":
+            eng = engines.get(op[1])
+            if eng is None:
+                outcome = "skipped"
+            else:
+                eng["force"].options[op[2]] = op[3]
+                eng["opts"][op[2]] = op[3]
+                eng["reconfigured"] = True
+                eng["clean"] = None
+                bump("probe:option_written_directly")
         elif kind == "bad_config":
             eng = engines.get(op[1])
             if eng is None:
